@@ -11,9 +11,13 @@
 use crate::util::*;
 use serde_json::{json, Value};
 use std::collections::BTreeSet;
+use zipora::concurrency::parallel_trie::{ParallelLoudsTrie, ParallelTrieBuilder, ParallelTrieOps};
+use zipora::fsa::nested_louds_trie::NestedLoudsTrieBuilder;
 use zipora::fsa::{
-    CompressedSparseTrie, ConcurrencyLevel, DoubleArrayTrie, DoubleArrayTrieConfig, FiniteStateAutomaton,
-    NestedLoudsTrie, NestedTrieDawg, SimpleDawg, StorageStrategy, Trie, TrieStrategy, ZiporaTrie, ZiporaTrieConfig,
+    BitVectorType, CacheStrategy, CompressedSparseTrie, CompressionStrategy, ConcurrencyLevel, DawgConfig, DoubleArrayTrie,
+    DoubleArrayTrieBuilder, DoubleArrayTrieConfig, FiniteStateAutomaton, FsaCacheConfig, NestedLoudsTrie, NestedTrieDawg,
+    NestingConfig, PrefixIterable, RankSelectType, SimpleDawg, StorageStrategy, Trie, TrieStrategy, VersionManager, ZiporaTrie,
+    ZiporaTrieConfig,
 };
 use zipora::memory::{SecureMemoryPool, SecurePoolConfig};
 use zipora::succinct::RankSelectInterleaved256;
@@ -47,7 +51,18 @@ const PRE: u64 = 5;
 const ACC: u64 = 6;
 const LP: u64 = 7;
 const CLONE: u64 = 8; // trie = trie.clone(); the model treats it as a no-op (code 9)
-const SHRINK: u64 = 10; // shrink_to_fit(): housekeeping that must not change the set; the models have no such step (code 9)
+const SHRINK: u64 = 10; // shrink_to_fit() / refresh_replicas(): housekeeping that must not change the set; the models have no such step (code 9)
+// ---- oracle breadth: secondary entry points. None of them is a step of the Coq models: INS_ID is replayed as an insert (code 0),
+// every other one as a no-op (code 9) - they do not change the set, and the models' answers do not depend on the layout.
+const INS_ID: u64 = 11; // insert through the second door: insert_and_get_node_id / Trie::insert of a wrapper / insert_with_token / bulk_insert([k])
+const HAS2: u64 = 12; // every other door to membership: Trie::contains, Trie::lookup, lookup(), *_with_token, parallel_contains, parallel_process
+const KEYS2: u64 = 13; // PrefixIterable::iter_all / parallel_prefix_search([""])
+const PRE2: u64 = 14; // PrefixIterable::iter_prefix / parallel_prefix_search([p, p])
+const FSAWALK: u64 = 15; // the language of the automaton view: DFS over root()/transitions()/is_final(), transitions() against transition()
+const NODEID: u64 = 16; // lookup_node_id(k) and restore_string of the id
+const DAWALK: u64 = 17; // a walk over the public double-array accessors (get_base / get_parent / get_check / is_free / is_terminal)
+const REBUILD: u64 = 18; // the trie is replaced by one built in bulk from its own keys (builders, build_from_*, from_trie, merge_tries, config() round trip); key[0] selects the door
+const CLEAR: u64 = 19; // clear(): the object is reused empty (NestedTrieDawg only)
 
 #[derive(Clone, Copy, PartialEq, Debug)]
 enum Kind { Patricia, Sparse, Louds, CritBit, DoubleArray, Dawg }
@@ -70,9 +85,45 @@ trait Tr {
     fn reclone(&mut self) -> bool { false }
     /// shrink_to_fit; false = the type has none
     fn shrink(&mut self) -> bool { false }
+    /// the second insert door; Some(id) = the node id it reports
+    fn insert_alt(&mut self, _k: &[u8]) -> Option<Result<Option<u32>, String>> { None }
+    /// many keys through the bulk door of the type (default: one insert each)
+    fn insert_many(&mut self, ks: &[Key]) -> Result<(), String> { for k in ks { self.insert(k)?; } Ok(()) }
+    /// (door, answer, answered through the FSA view)
+    fn contains_alt(&self, _k: &[u8]) -> Vec<(&'static str, bool, bool)> { vec![] }
+    fn is_empty_all(&self) -> Vec<(&'static str, bool)> { vec![] }
+    fn len_alt(&self) -> Vec<(&'static str, usize)> { vec![] }
+    fn keys_alt(&self, _p: Option<&[u8]>) -> Option<Vec<Key>> { None }
+    fn fsa(&self) -> Option<&dyn FiniteStateAutomaton> { None }
+    /// (lookup_node_id(k), restore_string(that id))
+    fn node_id(&self, _k: &[u8]) -> Option<(Option<u32>, Option<Key>)> { None }
+    fn da_walk(&self, _k: &[u8]) -> Option<bool> { None }
+    fn rebuild(&mut self, _keys: &[Key], _how: u64) -> Option<Result<(), String>> { None }
+    fn clear(&mut self) -> bool { false }
 }
 
-struct Z(ZiporaTrie);
+fn es<E: std::fmt::Debug>(e: E) -> String { format!("{:?}", e) }
+
+/// membership by hand over the accessors the double-array types publish
+fn da_accessor_walk(k: &[u8], base: &dyn Fn(u32) -> u32, parent: &dyn Fn(u32) -> u32, check: &dyn Fn(u32) -> u32, free: &dyn Fn(u32) -> bool, term: &dyn Fn(u32) -> bool) -> bool {
+    let mut s = 0u32;
+    for &c in k {
+        let n = match base(s).checked_add(c as u32) { Some(n) => n, None => return false };
+        if n == 0 || free(n) || parent(n) != s || check(n) != s { return false; }
+        s = n;
+    }
+    !free(s) && term(s)
+}
+
+fn trie_from(cfg: ZiporaTrieConfig, keys: &[Key], door: u64) -> Result<ZiporaTrie, String> {
+    let mut t: ZiporaTrie = ZiporaTrie::with_config(cfg);
+    for (i, k) in keys.iter().enumerate() {
+        match (door + i as u64) % 3 { 0 => t.insert(k).map_err(es)?, 1 => { t.insert_and_get_node_id(k).map_err(es)?; } _ => { Trie::insert(&mut t, k).map_err(es)?; } }
+    }
+    Ok(t)
+}
+
+struct Z(ZiporaTrie, Kind);
 impl Tr for Z {
     fn insert(&mut self, k: &[u8]) -> Result<(), String> { self.0.insert(k).map_err(|e| format!("{:?}", e)) }
     fn remove(&mut self, k: &[u8]) -> Option<Result<bool, String>> { Some(self.0.remove(k).map_err(|e| format!("{:?}", e))) }
@@ -85,6 +136,42 @@ impl Tr for Z {
     fn lp(&self, q: &[u8]) -> Option<Option<usize>> { Some(self.0.longest_prefix(q)) }
     fn reclone(&mut self) -> bool { self.0 = self.0.clone(); true }
     fn shrink(&mut self) -> bool { self.0.shrink_to_fit(); true }
+    fn insert_alt(&mut self, k: &[u8]) -> Option<Result<Option<u32>, String>> { Some(self.0.insert_and_get_node_id(k).map(Some).map_err(es)) }
+    /// ZiporaTrie::insert recomputes the statistics over all nodes after every call (quadratic on a big key set):
+    /// a bulk load takes that door for its first keys and then alternates between the two other insert doors
+    fn insert_many(&mut self, ks: &[Key]) -> Result<(), String> {
+        for (i, k) in ks.iter().enumerate() {
+            if i < 16 { self.0.insert(k).map_err(es)?; } else if i % 2 == 0 { self.0.insert_and_get_node_id(k).map_err(es)?; } else { Trie::insert(&mut self.0, k).map_err(es)?; }
+        }
+        Ok(())
+    }
+    fn contains_alt(&self, k: &[u8]) -> Vec<(&'static str, bool, bool)> {
+        vec![("Trie::contains", Trie::contains(&self.0, k), false), ("Trie::lookup", Trie::lookup(&self.0, k).is_some(), true)]
+    }
+    fn is_empty_all(&self) -> Vec<(&'static str, bool)> { vec![("is_empty", self.0.is_empty()), ("Trie::is_empty", Trie::is_empty(&self.0))] }
+    fn len_alt(&self) -> Vec<(&'static str, usize)> { vec![("Trie::len", Trie::len(&self.0)), ("stats().num_keys", self.0.stats().num_keys)] }
+    fn keys_alt(&self, p: Option<&[u8]>) -> Option<Vec<Key>> {
+        Some(match p { None => <ZiporaTrie as PrefixIterable>::iter_all(&self.0).collect(), Some(p) => <ZiporaTrie as PrefixIterable>::iter_prefix(&self.0, p).collect() })
+    }
+    fn fsa(&self) -> Option<&dyn FiniteStateAutomaton> { Some(&self.0) }
+    fn node_id(&self, k: &[u8]) -> Option<(Option<u32>, Option<Key>)> { let id = self.0.lookup_node_id(k); Some((id, id.and_then(|i| self.0.restore_string(i)))) }
+    fn da_walk(&self, k: &[u8]) -> Option<bool> {
+        if self.1 != Kind::DoubleArray { return None; }
+        let t = &self.0;
+        Some(da_accessor_walk(k, &|s| t.get_base_double_array(s), &|s| t.get_parent_double_array(s), &|s| t.get_check_double_array(s), &|s| t.is_free_double_array(s), &|s| t.is_final(s)))
+    }
+    fn rebuild(&mut self, keys: &[Key], how: u64) -> Option<Result<(), String>> {
+        // the critical-bit stub counts insert calls: a rebuilt trie would count differently, which says nothing about the property
+        if self.1 == Kind::CritBit { return None; }
+        let mut cfg = self.0.config().clone();
+        if how % 2 == 1 {
+            // the configuration is serialisable: a trie configured from the round trip is the same kind of trie
+            match serde_json::to_string(&cfg).map_err(es).and_then(|s| serde_json::from_str::<ZiporaTrieConfig>(&s).map_err(es)) { Ok(c) => cfg = c, Err(e) => return Some(Err(format!("config serde round trip: {}", e))) }
+        }
+        // the source is the trie's own enumeration when the door says so, else the keys handed in (with a duplicate)
+        let src: Vec<Key> = if how % 4 < 2 { self.0.iter_all().collect() } else { let mut v = keys.to_vec(); v.reverse(); if let Some(f) = keys.first() { v.push(f.clone()); } v };
+        Some(trie_from(cfg, &src, how / 4).map(|t| { self.0 = t; }))
+    }
 }
 /// ZiporaTrie driven through the `Trie` trait only (insert returns a state id).
 struct ZT(ZiporaTrie);
@@ -99,21 +186,16 @@ impl Tr for ZT {
     fn lookup_some(&self, k: &[u8]) -> Option<bool> { Some(Trie::lookup(&self.0, k).is_some()) }
     fn lp(&self, q: &[u8]) -> Option<Option<usize>> { Some(self.0.longest_prefix(q)) }
     fn shrink(&mut self) -> bool { self.0.shrink_to_fit(); true }
+    fn insert_alt(&mut self, k: &[u8]) -> Option<Result<Option<u32>, String>> { Some(self.0.insert_and_get_node_id(k).map(Some).map_err(es)) }
+    fn contains_alt(&self, k: &[u8]) -> Vec<(&'static str, bool, bool)> { vec![("contains", self.0.contains(k), false)] }
+    fn is_empty_all(&self) -> Vec<(&'static str, bool)> { vec![("Trie::is_empty", Trie::is_empty(&self.0))] }
+    fn len_alt(&self) -> Vec<(&'static str, usize)> { vec![("len", self.0.len())] }
+    fn keys_alt(&self, p: Option<&[u8]>) -> Option<Vec<Key>> { Some(match p { None => self.0.keys(), Some(p) => self.0.keys_with_prefix(p) }) }
+    fn fsa(&self) -> Option<&dyn FiniteStateAutomaton> { Some(&self.0) }
+    fn node_id(&self, k: &[u8]) -> Option<(Option<u32>, Option<Key>)> { let id = self.0.lookup_node_id(k); Some((id, id.and_then(|i| self.0.restore_string(i)))) }
 }
-macro_rules! wrapper_tr {
-    ($name:ident, $t:ty) => {
-        struct $name($t);
-        impl Tr for $name {
-            fn insert(&mut self, k: &[u8]) -> Result<(), String> { self.0.insert(k).map_err(|e| format!("{:?}", e)) }
-            fn contains(&self, k: &[u8]) -> bool { self.0.contains(k) }
-            fn len(&self) -> usize { self.0.len() }
-            fn accepts(&self, k: &[u8]) -> Option<bool> { Some(self.0.accepts(k)) }
-            fn lookup_some(&self, k: &[u8]) -> Option<bool> { Some(self.0.lookup(k).is_some()) }
-            fn lp(&self, q: &[u8]) -> Option<Option<usize>> { Some(self.0.longest_prefix(q)) }
-        }
-    };
-}
-struct WDa(DoubleArrayTrie);
+/// second field: the configuration the wrapper was made with (bulk rebuilds go through the builder with it)
+struct WDa(DoubleArrayTrie, DoubleArrayTrieConfig);
 impl Tr for WDa {
     fn insert(&mut self, k: &[u8]) -> Result<(), String> { self.0.insert(k).map_err(|e| format!("{:?}", e)) }
     fn contains(&self, k: &[u8]) -> bool { self.0.contains(k) }
@@ -122,9 +204,80 @@ impl Tr for WDa {
     fn lookup_some(&self, k: &[u8]) -> Option<bool> { Some(self.0.lookup(k).is_some()) }
     fn lp(&self, q: &[u8]) -> Option<Option<usize>> { Some(self.0.longest_prefix(q)) }
     fn shrink(&mut self) -> bool { self.0.shrink_to_fit(); true }
+    fn insert_alt(&mut self, k: &[u8]) -> Option<Result<Option<u32>, String>> { Some(Trie::insert(&mut self.0, k).map(|_| None).map_err(es)) }
+    fn contains_alt(&self, k: &[u8]) -> Vec<(&'static str, bool, bool)> {
+        vec![("Trie::contains", Trie::contains(&self.0, k), false), ("Trie::lookup", Trie::lookup(&self.0, k).is_some(), false)]
+    }
+    fn is_empty_all(&self) -> Vec<(&'static str, bool)> { vec![("is_empty", self.0.is_empty()), ("Trie::is_empty", Trie::is_empty(&self.0))] }
+    fn len_alt(&self) -> Vec<(&'static str, usize)> { vec![("Trie::len", Trie::len(&self.0)), ("stats().num_keys", self.0.stats().num_keys)] }
+    fn fsa(&self) -> Option<&dyn FiniteStateAutomaton> { Some(&self.0) }
+    fn da_walk(&self, k: &[u8]) -> Option<bool> {
+        let t = &self.0;
+        Some(da_accessor_walk(k, &|s| t.get_base(s), &|s| t.get_parent(s), &|s| t.get_check(s), &|s| t.is_free(s), &|s| t.is_terminal(s)))
+    }
+    fn rebuild(&mut self, keys: &[Key], how: u64) -> Option<Result<(), String>> {
+        let mut v = keys.to_vec();
+        if let Some(f) = keys.first() { v.push(f.clone()); }
+        let r = match how % 3 {
+            0 => DoubleArrayTrieBuilder::with_config(self.1.clone()).build_from_sorted(keys.to_vec()),
+            1 => { v.reverse(); DoubleArrayTrieBuilder::with_config(self.1.clone()).build_from_unsorted(v) }
+            _ => { v.reverse(); DoubleArrayTrieBuilder::new_compact().build_from_unsorted(v) }
+        };
+        Some(r.map(|t| { self.0 = t; }).map_err(es))
+    }
 }
-wrapper_tr!(WNl, NestedLoudsTrie<RankSelectInterleaved256>);
-wrapper_tr!(WCs, CompressedSparseTrie);
+struct WNl(NestedLoudsTrie<RankSelectInterleaved256>, NestingConfig);
+impl Tr for WNl {
+    fn insert(&mut self, k: &[u8]) -> Result<(), String> { self.0.insert(k).map_err(|e| format!("{:?}", e)) }
+    fn contains(&self, k: &[u8]) -> bool { self.0.contains(k) }
+    fn len(&self) -> usize { self.0.len() }
+    fn accepts(&self, k: &[u8]) -> Option<bool> { Some(self.0.accepts(k)) }
+    fn lookup_some(&self, k: &[u8]) -> Option<bool> { Some(self.0.lookup(k).is_some()) }
+    fn lp(&self, q: &[u8]) -> Option<Option<usize>> { Some(self.0.longest_prefix(q)) }
+    fn insert_alt(&mut self, k: &[u8]) -> Option<Result<Option<u32>, String>> { Some(Trie::insert(&mut self.0, k).map(|_| None).map_err(es)) }
+    fn contains_alt(&self, k: &[u8]) -> Vec<(&'static str, bool, bool)> {
+        vec![("Trie::contains", Trie::contains(&self.0, k), false), ("Trie::lookup", Trie::lookup(&self.0, k).is_some(), false)]
+    }
+    fn is_empty_all(&self) -> Vec<(&'static str, bool)> { vec![("is_empty", self.0.is_empty()), ("Trie::is_empty", Trie::is_empty(&self.0))] }
+    fn len_alt(&self) -> Vec<(&'static str, usize)> {
+        let p = self.0.performance_stats();
+        vec![("Trie::len", Trie::len(&self.0)), ("stats().num_keys", self.0.stats().num_keys), ("performance_stats().key_count", p.key_count), ("performance_stats().num_keys", p.num_keys)]
+    }
+    fn fsa(&self) -> Option<&dyn FiniteStateAutomaton> { Some(&self.0) }
+    fn rebuild(&mut self, keys: &[Key], how: u64) -> Option<Result<(), String>> {
+        let mut v = keys.to_vec();
+        if how % 2 == 1 { v.reverse(); if let Some(f) = keys.first() { v.push(f.clone()); } }
+        let r = if how % 4 < 2 { NestedLoudsTrieBuilder::with_config(self.1.clone()).build_from_iter(v) } else { NestedLoudsTrie::<RankSelectInterleaved256>::builder().build_from_iter(v) };
+        Some(r.map(|t| { self.0 = t; }).map_err(es))
+    }
+}
+struct WCs(CompressedSparseTrie, VersionManager);
+impl Tr for WCs {
+    fn insert(&mut self, k: &[u8]) -> Result<(), String> { self.0.insert(k).map_err(|e| format!("{:?}", e)) }
+    fn contains(&self, k: &[u8]) -> bool { self.0.contains(k) }
+    fn len(&self) -> usize { self.0.len() }
+    fn accepts(&self, k: &[u8]) -> Option<bool> { Some(self.0.accepts(k)) }
+    fn lookup_some(&self, k: &[u8]) -> Option<bool> { Some(self.0.lookup(k).is_some()) }
+    fn lp(&self, q: &[u8]) -> Option<Option<usize>> { Some(self.0.longest_prefix(q)) }
+    fn insert_alt(&mut self, k: &[u8]) -> Option<Result<Option<u32>, String>> {
+        // a read-only version manager hands out no writer token: then the Trie trait door
+        Some(match self.1.acquire_writer_token() {
+            Ok(tok) => self.0.insert_with_token(k, &tok).map(|_| None).map_err(es),
+            Err(_) => Trie::insert(&mut self.0, k).map(|_| None).map_err(es),
+        })
+    }
+    fn contains_alt(&self, k: &[u8]) -> Vec<(&'static str, bool, bool)> {
+        let mut v = vec![("Trie::contains", Trie::contains(&self.0, k), false), ("Trie::lookup", Trie::lookup(&self.0, k).is_some(), false)];
+        if let Ok(tok) = self.1.acquire_reader_token() {
+            v.push(("contains_with_token", self.0.contains_with_token(k, &tok), false));
+            v.push(("lookup_with_token", self.0.lookup_with_token(k, &tok).is_some(), false));
+        }
+        v
+    }
+    fn is_empty_all(&self) -> Vec<(&'static str, bool)> { vec![("is_empty", self.0.is_empty()), ("Trie::is_empty", Trie::is_empty(&self.0))] }
+    fn len_alt(&self) -> Vec<(&'static str, usize)> { vec![("Trie::len", Trie::len(&self.0)), ("stats().num_keys", self.0.stats().num_keys)] }
+    fn fsa(&self) -> Option<&dyn FiniteStateAutomaton> { Some(&self.0) }
+}
 /// second field: Some(keys so far) = the static use, the automaton is rebuilt by build_from_keys (duplicates included) on every insert
 struct WDawg(NestedTrieDawg, Option<Vec<Key>>);
 impl Tr for WDawg {
@@ -139,6 +292,20 @@ impl Tr for WDawg {
     fn accepts(&self, k: &[u8]) -> Option<bool> { Some(self.0.accepts(k)) }
     fn lookup_some(&self, k: &[u8]) -> Option<bool> { Some(Trie::lookup(&self.0, k).is_some()) }
     fn lp(&self, q: &[u8]) -> Option<Option<usize>> { Some(self.0.longest_prefix(q)) }
+    fn is_empty_all(&self) -> Vec<(&'static str, bool)> { vec![("Trie::is_empty", Trie::is_empty(&self.0))] }
+    fn len_alt(&self) -> Vec<(&'static str, usize)> {
+        use zipora::fsa::StatisticsProvider;
+        vec![("statistics().num_keys", self.0.statistics().num_keys), ("stats().num_keys", self.0.stats().num_keys)]
+    }
+    fn fsa(&self) -> Option<&dyn FiniteStateAutomaton> { Some(&self.0) }
+    /// build_from_keys on the automaton that is in use (it clears itself first); later inserts go on through its own insert door
+    fn rebuild(&mut self, keys: &[Key], how: u64) -> Option<Result<(), String>> {
+        let mut v = keys.to_vec();
+        if how % 2 == 1 { v.reverse(); if let Some(f) = keys.first() { v.push(f.clone()); } }
+        if let Some(all) = &mut self.1 { *all = v.clone(); }
+        Some(self.0.build_from_keys(v.iter()).map_err(es))
+    }
+    fn clear(&mut self) -> bool { self.0.clear(); if let Some(all) = &mut self.1 { all.clear(); } true }
 }
 struct WSDawg(SimpleDawg);
 impl Tr for WSDawg {
@@ -146,12 +313,72 @@ impl Tr for WSDawg {
     fn contains(&self, k: &[u8]) -> bool { self.0.contains(k) }
     fn len(&self) -> usize { self.0.num_keys() }
 }
-struct WPar(zipora::concurrency::parallel_trie::ParallelLoudsTrie, tokio::runtime::Runtime);
+struct WPar(ParallelLoudsTrie, tokio::runtime::Runtime);
 impl Tr for WPar {
     fn insert(&mut self, k: &[u8]) -> Result<(), String> { self.1.block_on(self.0.insert(k)).map(|_| ()).map_err(|e| format!("{:?}", e)) }
     fn contains(&self, k: &[u8]) -> bool { self.1.block_on(self.0.contains(k)) }
     fn len(&self) -> usize { self.1.block_on(self.0.len()) }
     fn prefix(&self, p: &[u8]) -> Option<Vec<Key>> { self.1.block_on(self.0.parallel_prefix_search(vec![p.to_vec()])).into_iter().next() }
+    /// refresh_replicas: housekeeping that must leave every answer as it was
+    fn shrink(&mut self) -> bool { self.1.block_on(self.0.refresh_replicas()).is_ok() }
+    fn insert_alt(&mut self, k: &[u8]) -> Option<Result<Option<u32>, String>> {
+        Some(self.1.block_on(self.0.bulk_insert(vec![k.to_vec()])).map_err(es).and_then(|ids| if ids.len() == 1 { Ok(Some(ids[0])) } else { Err(format!("bulk_insert of one key returned {} ids", ids.len())) }))
+    }
+    fn insert_many(&mut self, ks: &[Key]) -> Result<(), String> {
+        let ids = self.1.block_on(self.0.bulk_insert(ks.to_vec())).map_err(es)?;
+        if ids.len() == ks.len() { Ok(()) } else { Err(format!("bulk_insert of {} keys returned {} ids", ks.len(), ids.len())) }
+    }
+    fn contains_alt(&self, k: &[u8]) -> Vec<(&'static str, bool, bool)> {
+        let mut q = k.to_vec(); q.push(0);
+        let pc = self.1.block_on(self.0.parallel_contains(vec![k.to_vec(), q, k.to_vec()]));
+        let kk = k.to_vec();
+        let pp = self.1.block_on(self.0.parallel_process(vec![move |t: &ZiporaTrie| -> zipora::Result<bool> { Ok(t.contains(&kk)) }]));
+        let mut v = vec![];
+        if pc.len() == 3 { v.push(("parallel_contains[0]", pc[0], false)); v.push(("parallel_contains[2]", pc[2], false)); } else { v.push(("parallel_contains answered for every key", false, false)); v.push(("parallel_contains answered for every key", true, false)); }
+        for r in pp { if let Ok(b) = r { v.push(("parallel_process(contains)", b, false)); } }
+        v
+    }
+    fn is_empty_all(&self) -> Vec<(&'static str, bool)> { vec![("is_empty", self.1.block_on(self.0.is_empty()))] }
+    fn len_alt(&self) -> Vec<(&'static str, usize)> {
+        let pp = self.1.block_on(self.0.parallel_process(vec![|t: &ZiporaTrie| -> zipora::Result<usize> { Ok(t.len()) }]));
+        pp.into_iter().filter_map(|r| r.ok()).map(|n| ("parallel_process(len) on a replica", n)).collect()
+    }
+    fn keys_alt(&self, p: Option<&[u8]>) -> Option<Vec<Key>> {
+        let p = p.unwrap_or(&[]).to_vec();
+        let mut r = self.1.block_on(self.0.parallel_prefix_search(vec![p.clone(), p])).into_iter();
+        let a = r.next()?; let b = r.next()?;
+        // both answers are for the same prefix: a difference shows up as a duplicate
+        if sorted(a.clone()) == sorted(b.clone()) { Some(a) } else { let mut a = a; a.extend(b); Some(a) }
+    }
+    fn rebuild(&mut self, keys: &[Key], how: u64) -> Option<Result<(), String>> {
+        let mut v = keys.to_vec();
+        v.reverse();
+        if let Some(f) = keys.first() { v.push(f.clone()); }
+        let rt = &self.1;
+        let r: Result<ParallelLoudsTrie, String> = match how % 3 {
+            // chunk sizes below the number of keys: partial tries are built and merged
+            0 => rt.block_on(ParallelTrieBuilder::new().chunk_size(1 + (how / 3 % 3) as usize).max_workers(2).build_louds_trie(v)).map_err(es),
+            1 => trie_from(ZiporaTrieConfig::default(), &v, how / 3).map(ParallelLoudsTrie::from_trie),
+            _ => {
+                // merge of the trie in use with one that holds every second key; their Jaccard similarity is |half| / |all|
+                let half: Vec<Key> = keys.iter().step_by(2).cloned().collect();
+                match trie_from(ZiporaTrieConfig::default(), &half, how / 3).map(ParallelLoudsTrie::from_trie) {
+                    Err(e) => Err(e),
+                    Ok(other) => {
+                        let old = std::mem::replace(&mut self.0, ParallelLoudsTrie::new());
+                        let sim = rt.block_on(ParallelTrieOps::compute_similarity(&old, &other, 100)).map_err(es);
+                        let want = if keys.is_empty() { 1.0 } else { half.len() as f64 / keys.len() as f64 };
+                        match sim {
+                            Ok(s) if s == want => rt.block_on(ParallelTrieOps::merge_tries(vec![old, other])).map_err(es),
+                            Ok(s) => Err(format!("compute_similarity = {} but the two key sets share {} of {} keys", s, half.len(), keys.len())),
+                            Err(e) => Err(e),
+                        }
+                    }
+                }
+            }
+        };
+        Some(r.map(|t| { self.0 = t; }))
+    }
 }
 
 struct CellDef { name: &'static str, kind: Kind, status: &'static str }
@@ -178,22 +405,84 @@ const CELLS: &[CellDef] = &[
     CellDef { name: "NestedTrieDawg(build_from_keys)", kind: Kind::Dawg, status: "S-only" },
     CellDef { name: "SimpleDawg", kind: Kind::Dawg, status: "S-only" },
     CellDef { name: "ParallelLoudsTrie", kind: Kind::Patricia, status: "S-only" },
+    // ---- oracle breadth: every configuration field / constructor / builder drawn from the `cfg` number of the case
+    CellDef { name: "ZiporaTrie/varied(Patricia)", kind: Kind::Patricia, status: "M+S" },
+    CellDef { name: "ZiporaTrie/varied(DoubleArray)", kind: Kind::DoubleArray, status: "M+S" },
+    CellDef { name: "ZiporaTrie/varied(CompressedSparse)", kind: Kind::Sparse, status: "M+S" },
+    CellDef { name: "ZiporaTrie/varied(Louds)", kind: Kind::Louds, status: "M+S" },
+    CellDef { name: "ZiporaTrie/varied(CriticalBit)", kind: Kind::CritBit, status: "finding" },
+    CellDef { name: "DoubleArrayTrie(varied)", kind: Kind::DoubleArray, status: "M+S" },
+    CellDef { name: "NestedLoudsTrie(varied)", kind: Kind::Louds, status: "M+S" },
+    CellDef { name: "CompressedSparseTrie(varied)", kind: Kind::Sparse, status: "M+S" },
+    CellDef { name: "NestedTrieDawg(varied)", kind: Kind::Dawg, status: "S-only" },
+    CellDef { name: "ParallelLoudsTrie(varied)", kind: Kind::Patricia, status: "S-only" },
 ];
 
-fn make(cell: &str) -> Result<Box<dyn Tr>, String> {
+fn small_pool() -> Result<std::sync::Arc<SecureMemoryPool>, String> { SecureMemoryPool::new(SecurePoolConfig::small_secure()).map_err(es) }
+
+fn varied_storage(r: &mut Rng, depth: u32) -> Result<StorageStrategy, String> {
+    let sizes = [0usize, 1, 2, 63, 64, 255, 256, 4096, 8192, 65536, 1 << 20];
+    Ok(match r.below(if depth >= 2 { 4 } else { 5 }) {
+        0 => StorageStrategy::Standard { initial_capacity: *r.pick(&sizes), growth_factor: *r.pick(&[0.0, 0.5, 1.0, 1.5, 2.0, 1e9]) },
+        1 => StorageStrategy::Succinct {
+            bit_vector_type: match r.below(4) { 0 => BitVectorType::Standard, 1 => BitVectorType::RankSelectOptimized, 2 => BitVectorType::CacheAligned, _ => BitVectorType::Compressed },
+            rank_select_type: varied_rs(r), interleaved_layout: r.chance(1, 2),
+        },
+        2 => StorageStrategy::CacheOptimized { cache_line_size: *r.pick(&sizes), numa_aware: r.chance(1, 2), prefetch_enabled: r.chance(1, 2) },
+        3 => StorageStrategy::PoolAllocated { pool: small_pool()?, size_class: *r.pick(&sizes), chunk_size: *r.pick(&sizes) },
+        _ => StorageStrategy::Hybrid { primary: Box::new(varied_storage(r, depth + 1)?), secondary: Box::new(varied_storage(r, depth + 1)?), switch_threshold: *r.pick(&sizes) },
+    })
+}
+fn varied_rs(r: &mut Rng) -> RankSelectType {
+    match r.below(6) { 0 => RankSelectType::Interleaved256, 1 => RankSelectType::MixedIL256, 2 => RankSelectType::MixedXL256, 3 => RankSelectType::MixedXLBitPacked, 4 => RankSelectType::Simple, _ => RankSelectType::Adaptive }
+}
+fn varied_compression(r: &mut Rng, depth: u32) -> CompressionStrategy {
+    let sizes = [0usize, 1, 2, 8, 16, 32, 64, 255, 256, 4096, 65536];
+    match r.below(if depth >= 1 { 4 } else { 5 }) {
+        0 => CompressionStrategy::None,
+        1 => CompressionStrategy::PathCompression { min_path_length: *r.pick(&sizes), max_path_length: *r.pick(&sizes), adaptive_threshold: r.chance(1, 2) },
+        2 => CompressionStrategy::FragmentCompression { fragment_size: *r.pick(&sizes), frequency_threshold: *r.pick(&[0.0, 0.1, 1.0]), dictionary_size: *r.pick(&sizes) },
+        3 => CompressionStrategy::Hierarchical { levels: *r.pick(&sizes), compression_ratio: *r.pick(&[0.0, 0.7, 1.0]), adaptive_levels: r.chance(1, 2) },
+        _ => { let n = r.below(3); CompressionStrategy::Adaptive { strategies: (0..n).map(|_| varied_compression(r, depth + 1)).collect(), decision_threshold: *r.pick(&sizes) } }
+    }
+}
+/// a configuration of the given trie strategy with every other field drawn from boundary values (and every enum variant)
+fn varied_config(strategy: &str, cfg: u64) -> Result<ZiporaTrieConfig, String> {
+    let mut r = Rng::new(cfg ^ 0x5eed_c05);
+    let sizes = [0usize, 1, 2, 3, 4, 31, 32, 33, 64, 255, 256, 4096, 65536];
+    let trie_strategy = match strategy {
+        "Patricia" => TrieStrategy::Patricia { max_path_length: *r.pick(&sizes), compression_threshold: *r.pick(&sizes), adaptive_compression: r.chance(1, 2) },
+        "DoubleArray" => TrieStrategy::DoubleArray { initial_capacity: *r.pick(&[0usize, 1, 2, 255, 256, 257, 4096, 65536, 1 << 20]), growth_factor: *r.pick(&[0.0, 0.5, 1.0, 1.5, 2.0, 1e9]), free_list_management: r.chance(1, 2), auto_shrink: r.chance(1, 2) },
+        "CompressedSparse" => TrieStrategy::CompressedSparse { sparse_threshold: *r.pick(&[0.0, 0.3, 1.0, 2.0]), compression_level: *r.pick(&[0u8, 1, 6, 9, 255]), adaptive_sparse: r.chance(1, 2) },
+        "Louds" => TrieStrategy::Louds { nesting_levels: *r.pick(&sizes), fragment_compression: r.chance(1, 2), adaptive_backends: r.chance(1, 2), cache_aligned: r.chance(1, 2) },
+        _ => TrieStrategy::CriticalBit { cache_critical_bytes: r.chance(1, 2), optimize_for_strings: r.chance(1, 2), bit_level_optimization: r.chance(1, 2) },
+    };
+    let c = ZiporaTrieConfig {
+        trie_strategy, storage_strategy: varied_storage(&mut r, 0)?, compression_strategy: varied_compression(&mut r, 0), rank_select_type: varied_rs(&mut r),
+        enable_simd: r.chance(1, 2), enable_concurrency: r.chance(1, 2), cache_optimization: r.chance(1, 2),
+    };
+    if r.chance(1, 3) {
+        let s = serde_json::to_string(&c).map_err(es)?;
+        return serde_json::from_str::<ZiporaTrieConfig>(&s).map_err(es);
+    }
+    Ok(c)
+}
+
+fn make(cell: &str, cfg: u64) -> Result<Box<dyn Tr>, String> {
     let r = guarded(|| -> Result<Box<dyn Tr>, String> {
+        let kind = CELLS.iter().find(|d| d.name == cell).map(|d| d.kind).unwrap_or(Kind::Patricia);
+        let z = |t: ZiporaTrie| -> Box<dyn Tr> { Box::new(Z(t, kind)) };
+        let mut r = Rng::new(cfg ^ 0xce11);
         Ok(match cell {
-            "ZiporaTrie/default" | "PatriciaTrie(alias)" => Box::new(Z(zipora::fsa::PatriciaTrie::new())),
-            "CritBitTrie(alias)" => Box::new(Z(zipora::fsa::CritBitTrie::new())),
-            "ZiporaTrie/default/via-Trie-trait" => Box::new(ZT(ZiporaTrie::new())),
-            "ZiporaTrie/cache_optimized" => Box::new(Z(ZiporaTrie::with_config(ZiporaTrieConfig::cache_optimized()))),
-            "ZiporaTrie/sparse_optimized" => Box::new(Z(ZiporaTrie::with_config(ZiporaTrieConfig::sparse_optimized()))),
-            "ZiporaTrie/space_optimized" => Box::new(Z(ZiporaTrie::with_config(ZiporaTrieConfig::space_optimized()))),
-            "ZiporaTrie/string_specialized" => Box::new(Z(ZiporaTrie::with_config(ZiporaTrieConfig::string_specialized()))),
-            "ZiporaTrie/concurrent_high_performance" => {
-                let pool = SecureMemoryPool::new(SecurePoolConfig::small_secure()).map_err(|e| format!("{:?}", e))?;
-                Box::new(Z(ZiporaTrie::with_config(ZiporaTrieConfig::concurrent_high_performance(pool))))
-            }
+            "ZiporaTrie/default" | "PatriciaTrie(alias)" => z(zipora::fsa::PatriciaTrie::new()),
+            "CritBitTrie(alias)" => z(zipora::fsa::CritBitTrie::new()),
+            "ZiporaTrie/default/via-Trie-trait" => Box::new(ZT(ZiporaTrie::default())),
+            "ZiporaTrie/cache_optimized" => z(ZiporaTrie::with_config(ZiporaTrieConfig::cache_optimized())),
+            "ZiporaTrie/sparse_optimized" => z(ZiporaTrie::with_config(ZiporaTrieConfig::sparse_optimized())),
+            "ZiporaTrie/space_optimized" => z(ZiporaTrie::with_config(ZiporaTrieConfig::space_optimized())),
+            "ZiporaTrie/string_specialized" => z(ZiporaTrie::with_config(ZiporaTrieConfig::string_specialized())),
+            "ZiporaTrie/concurrent_high_performance" => z(ZiporaTrie::with_config(ZiporaTrieConfig::concurrent_high_performance(small_pool()?))),
+            n if n.starts_with("ZiporaTrie/varied(") => z(ZiporaTrie::with_config(varied_config(&n["ZiporaTrie/varied(".len()..n.len() - 1], cfg)?)),
             n if n.starts_with("ZiporaTrie/custom(") => {
                 // every TrieStrategy crossed with a StorageStrategy other than the one its preset uses
                 let mut c = ZiporaTrieConfig::default();
@@ -221,22 +510,73 @@ fn make(cell: &str) -> Result<Box<dyn Tr>, String> {
                         c.storage_strategy = std_storage;
                     }
                 }
-                Box::new(Z(ZiporaTrie::with_config(c)))
+                z(ZiporaTrie::with_config(c))
             }
-            "DoubleArrayTrie(wrapper)" => Box::new(WDa(DoubleArrayTrie::new())),
+            "DoubleArrayTrie(wrapper)" => Box::new(WDa(DoubleArrayTrie::new(), DoubleArrayTrieConfig::default())),
             "DoubleArrayTrie(wrapper,capacity=1)" => {
                 let mut c = DoubleArrayTrieConfig::default();
                 c.initial_capacity = 1;
-                Box::new(WDa(DoubleArrayTrie::with_config(c)))
+                Box::new(WDa(DoubleArrayTrie::with_config(c.clone()), c))
             }
-            "NestedLoudsTrie(wrapper)" => Box::new(WNl(NestedLoudsTrie::new().map_err(|e| format!("{:?}", e))?)),
-            "CompressedSparseTrie(wrapper)" => Box::new(WCs(CompressedSparseTrie::new(ConcurrencyLevel::SingleThreadStrict).map_err(|e| format!("{:?}", e))?)),
+            "DoubleArrayTrie(varied)" => {
+                let c = DoubleArrayTrieConfig {
+                    initial_capacity: *r.pick(&[0usize, 1, 2, 255, 256, 257, 4096, 65536, 1 << 20]), growth_factor: *r.pick(&[0.0, 0.5, 1.0, 1.5, 2.0, 1e9]),
+                    use_memory_pool: r.chance(1, 2), enable_simd: r.chance(1, 2), pool_size_class: *r.pick(&[0usize, 1, 4096, 8192, 65536]), auto_shrink: r.chance(1, 2),
+                    cache_aligned: r.chance(1, 2), heuristic_collision_avoidance: r.chance(1, 2),
+                };
+                let t = match r.below(4) {
+                    0 => DoubleArrayTrie::with_config(c.clone()),
+                    1 => DoubleArrayTrieBuilder::with_config(c.clone()).build_from_sorted(vec![]).map_err(es)?,
+                    2 => DoubleArrayTrieBuilder::new().build_from_unsorted(vec![]).map_err(es)?,
+                    _ => DoubleArrayTrieBuilder::new_compact().build_from_sorted(vec![]).map_err(es)?,
+                };
+                Box::new(WDa(t, c))
+            }
+            "NestedLoudsTrie(wrapper)" => Box::new(WNl(NestedLoudsTrie::new().map_err(|e| format!("{:?}", e))?, NestingConfig::default())),
+            "NestedLoudsTrie(varied)" => {
+                let sizes = [0usize, 1, 2, 3, 64, 255, 256, 4096, 65536, 1 << 20];
+                let c = NestingConfig::builder().max_levels(*r.pick(&sizes)).fragment_compression_ratio(*r.pick(&[0.0, 0.5, 1.0])).min_fragment_size(*r.pick(&sizes))
+                    .max_fragment_size(*r.pick(&sizes)).cache_optimization(r.chance(1, 2)).cache_block_size(*r.pick(&sizes)).density_switch_threshold(*r.pick(&[0.0, 0.5, 1.0]))
+                    .adaptive_backend_selection(r.chance(1, 2)).memory_pool_size(*r.pick(&sizes)).build().map_err(es)?;
+                let t = match r.below(3) {
+                    0 => NestedLoudsTrie::with_config(c.clone()).map_err(es)?,
+                    1 => NestedLoudsTrieBuilder::with_config(c.clone()).build_from_iter(Vec::<Key>::new()).map_err(es)?,
+                    _ => NestedLoudsTrie::<RankSelectInterleaved256>::builder().build_from_iter(Vec::<Key>::new()).map_err(es)?,
+                };
+                Box::new(WNl(t, c))
+            }
+            "CompressedSparseTrie(wrapper)" => Box::new(WCs(CompressedSparseTrie::new(ConcurrencyLevel::SingleThreadStrict).map_err(|e| format!("{:?}", e))?, VersionManager::new(ConcurrencyLevel::SingleThreadStrict))),
+            "CompressedSparseTrie(varied)" => {
+                let level = *r.pick(&[ConcurrencyLevel::NoWriteReadOnly, ConcurrencyLevel::SingleThreadStrict, ConcurrencyLevel::SingleThreadShared, ConcurrencyLevel::OneWriteMultiRead, ConcurrencyLevel::MultiWriteMultiRead]);
+                let t = if r.chance(1, 2) { CompressedSparseTrie::new(level) } else { CompressedSparseTrie::with_memory_pool(level, small_pool()?) }.map_err(es)?;
+                Box::new(WCs(t, VersionManager::new(level)))
+            }
             "NestedTrieDawg(Trie::insert)" => Box::new(WDawg(NestedTrieDawg::new().map_err(|e| format!("{:?}", e))?, None)),
             "NestedTrieDawg(build_from_keys)" => Box::new(WDawg(NestedTrieDawg::new().map_err(|e| format!("{:?}", e))?, Some(vec![]))),
+            "NestedTrieDawg(varied)" => {
+                let c = match r.below(4) {
+                    0 => DawgConfig::memory_efficient(),
+                    1 => DawgConfig::performance_optimized(),
+                    _ => {
+                        // the dense table is max_states * 256 words: a small automaton; the state cache evicts from its first states on
+                        let dense = r.chance(1, 2);
+                        let cache = FsaCacheConfig { max_states: *r.pick(&[1usize, 2, 3, 10, 1000]), strategy: *r.pick(&[CacheStrategy::BreadthFirst, CacheStrategy::DepthFirst, CacheStrategy::CacheFriendly]), compressed_paths: r.chance(1, 2), use_hugepages: false, max_memory_bytes: *r.pick(&[0usize, 4096, 1 << 20]) };
+                        DawgConfig { use_rank_select: r.chance(1, 2), enable_cache: r.chance(2, 3), cache_config: cache, max_states: if dense { 3000 } else { *r.pick(&[3000usize, 65536, 1 << 20]) }, compressed_storage: !dense }
+                    }
+                };
+                Box::new(WDawg(NestedTrieDawg::with_config(c).map_err(es)?, if r.chance(1, 4) { Some(vec![]) } else { None }))
+            }
             "SimpleDawg" => Box::new(WSDawg(SimpleDawg::new())),
-            "ParallelLoudsTrie" => {
+            "ParallelLoudsTrie" | "ParallelLoudsTrie(varied)" => {
                 let rt = tokio::runtime::Builder::new_current_thread().build().map_err(|e| format!("{:?}", e))?;
-                Box::new(WPar(zipora::concurrency::parallel_trie::ParallelLoudsTrie::new(), rt))
+                let t = if cell == "ParallelLoudsTrie" { ParallelLoudsTrie::new() } else {
+                    match r.below(3) {
+                        0 => ParallelLoudsTrie::from_trie(ZiporaTrie::with_config(ZiporaTrieConfig::cache_optimized())),
+                        1 => rt.block_on(ParallelTrieBuilder::default().chunk_size(*r.pick(&[1usize, 2, 10000])).max_workers(*r.pick(&[1usize, 2, 64])).build_louds_trie(Vec::<Key>::new())).map_err(es)?,
+                        _ => ParallelLoudsTrie::default(),
+                    }
+                };
+                Box::new(WPar(t, rt))
             }
             _ => return Err(format!("unknown cell {}", cell)),
         })
@@ -252,36 +592,132 @@ fn b2n(b: bool) -> String { format!("[[{}]%N]", if b { 1 } else { 0 }) }
 
 fn sorted(mut v: Vec<Key>) -> Vec<Key> { v.sort(); v }
 
+/// A big key set described by (kind, n, seed) instead of being spelled out; it is loaded through the bulk door before the ops run.
+#[derive(Clone, Debug)]
+struct BigSpec { kind: String, n: usize, seed: u64 }
+
+const DENSE_ALPHA: usize = 41;
+fn dense_alpha() -> Vec<u8> { [0x00u8, 0x01, 0x7f, 0x80, 0xfe, 0xff].iter().copied().chain(b'a'..=b'z').chain(b'0'..=b'8').collect() }
+fn big_keys(b: &BigSpec) -> Vec<Key> {
+    match b.kind.as_str() {
+        // "dense3": the n first strings of length 1..3 over 41 symbols (0x00, 0xFF, ... included) in a fixed pseudo-random order:
+        // keys that are prefixes of each other arrive in both orders, every node gets up to 41 children
+        "dense3" => {
+            let al = dense_alpha();
+            let a = DENSE_ALPHA;
+            let m = a + a * a + a * a * a; // 70643 = 41 * 1723, coprime with 65537
+            (0..b.n.min(m)).map(|i| {
+                let idx = (i * 65537 + (b.seed as usize % m)) % m;
+                if idx < a { vec![al[idx]] } else if idx < a + a * a { let j = idx - a; vec![al[j / a], al[j % a]] } else { let j = idx - a - a * a; vec![al[j / (a * a)], al[j / a % a], al[j % a]] }
+            }).collect()
+        }
+        // "long": n keys of 200..255 arbitrary bytes, half of them continuing a random-length prefix of an earlier key
+        // (branching deep inside; sometimes a key that is a proper prefix of an earlier one)
+        _ => {
+            let mut r = Rng::new(b.seed ^ 0xb16);
+            let mut out: Vec<Key> = vec![];
+            for i in 0..b.n {
+                let len = r.range(200, 255) as usize;
+                let mut k: Key = if i > 0 && r.chance(1, 2) { let base = &out[r.below(i as u64) as usize]; base[..r.below(base.len() as u64 + 1) as usize].to_vec() } else { vec![] };
+                k.truncate(len);
+                while k.len() < len { k.push(r.next() as u8); }
+                if !out.contains(&k) { out.push(k); }
+            }
+            out
+        }
+    }
+}
+
+/// One case: the cell's configuration number, an optional big prelude and the operation history.
+struct Case { cfg: u64, big: Option<BigSpec>, ops: Vec<Op>, ops_json: Option<Vec<Value>> }
+impl Case {
+    fn plain(ops: Vec<Op>) -> Case { Case { cfg: 0, big: None, ops, ops_json: None } }
+    fn json(&self, cell: &str) -> Value {
+        let ops: Vec<Value> = match &self.ops_json { Some(j) => j.clone(), None => self.ops.iter().map(|(o, k)| json!([o, k])).collect() };
+        let mut v = json!({"cell": cell, "ops": ops});
+        if self.cfg != 0 { v["cfg"] = json!(self.cfg); }
+        if let Some(b) = &self.big { v["big"] = json!({"kind": b.kind, "n": b.n, "seed": b.seed}); }
+        v
+    }
+}
+
+/// The language of the automaton view: every path from root() over transitions() that ends in an is_final() state.
+/// Ok(None) = the walk was cut off by its budget (nothing is concluded); Err = the view contradicts itself.
+fn fsa_language(a: &dyn FiniteStateAutomaton, max_depth: usize, budget: usize) -> Result<Option<Vec<Key>>, String> {
+    let mut out: Vec<Key> = vec![];
+    let mut visited = 0usize;
+    // (state, path) stack; a DAWG shares states, so paths are walked, not states
+    let mut stack: Vec<(u32, Key)> = vec![(a.root(), vec![])];
+    while let Some((s, path)) = stack.pop() {
+        visited += 1;
+        if visited > budget { return Ok(None); }
+        if a.is_final(s) { out.push(path.clone()); }
+        let ts: Vec<(u8, u32)> = a.transitions(s).collect();
+        let mut seen = [false; 256];
+        for &(c, t) in &ts {
+            if seen[c as usize] { return Err(format!("transitions({}) lists symbol {} twice (path {:?})", s, c, trunc1(&path))); }
+            seen[c as usize] = true;
+            if a.transition(s, c) != Some(t) { return Err(format!("transitions({}) lists ({}, {}) but transition({}, {}) = {:?} (path {:?})", s, c, t, s, c, a.transition(s, c), trunc1(&path))); }
+        }
+        if visited <= 600 {
+            for c in 0..=255u8 { if !seen[c as usize] { if let Some(t) = a.transition(s, c) { return Err(format!("transition({}, {}) = {} is missing from transitions({}) (path {:?})", s, c, t, s, trunc1(&path))); } } }
+        }
+        if path.len() > max_depth { return Err(format!("the automaton has a path of {} symbols, longer than every key ever inserted (path {:?})", path.len(), trunc1(&path))); }
+        for &(c, t) in ts.iter().rev() { let mut p = path.clone(); p.push(c); stack.push((t, p)); }
+    }
+    Ok(Some(out))
+}
+fn trunc1(k: &[u8]) -> Key { k.iter().take(16).cloned().collect() }
+
 /// Run one history on one cell. Returns nothing; failures go to the summary.
-fn history(cx: &mut Ctx, cell: &CellDef, ops: &[Op], force_coq: bool, allow_coq: bool) {
+fn history(cx: &mut Ctx, cell: &CellDef, case: &Case, force_coq: bool, allow_coq: bool) {
     let name = cell.name;
     let kind = cell.kind;
-    let cj = json!({"cell": name, "ops": ops.iter().map(|(o, k)| json!([o, k])).collect::<Vec<_>>()});
-    let keytext = format!("{} {:?}", name, ops);
-    let nmut = ops.iter().filter(|(o, _)| *o <= REM).count();
+    let ops = &case.ops;
+    let cj = case.json(name);
+    let keytext = format!("{} {} {:?} {:?}", name, case.cfg, case.big, ops);
+    let nmut = ops.iter().filter(|(o, _)| *o <= REM || *o == INS_ID).count() + if case.big.is_some() { 2 } else { 0 };
     cx.sum.eval(name, &keytext, nmut >= 2);
     cx.sum.cell_status(name, cell.status);
-    let mut t = match make(name) {
+    let mut t = match make(name, case.cfg) {
         Ok(t) => t,
-        Err(e) => { cx.sum.fail(name, None, cj, &format!("cannot construct: {}", e)); return; }
+        Err(e) => { report(&mut cx.sum, name, None, cj, &format!("cannot construct: {}", e)); return; }
     };
     // every key mentioned by the history (and each of its prefixes' extension by one byte is covered by the generators)
-    let mut pool: Vec<Key> = ops.iter().map(|(_, k)| k.clone()).collect();
+    let mut pool: Vec<Key> = ops.iter().filter(|(o, _)| *o != REBUILD).map(|(_, k)| k.clone()).collect();
     pool.sort(); pool.dedup();
     let mut set: BTreeSet<Key> = BTreeSet::new();
     let mut obs: Vec<String> = vec![];
     let mut unavailable: Vec<usize> = vec![];  // ops the type does not offer: code 9 (no-op) on the model side
-    let mut coq_ok = true;              // false once the history leaves what the Coq model describes
+    let mut coq_ok = case.big.is_none(); // false once the history leaves what the Coq model describes
     let mut n_inserts_ok: usize = 0;      // critical-bit stub predicate: len counts every accepted insert call
     let mut n_insert_calls_dawg: usize = 0;
     let mut failed = false;
-    macro_rules! fail { ($class:expr, $($arg:tt)*) => {{ let cl: Option<&str> = $class; cx.sum.fail(name, cl, cj.clone(), &format!($($arg)*)); if cl.is_none() { failed = true; cx.sum.dist(&format!("unlisted_failures/{}", name)); } }}; }
+    macro_rules! fail { ($class:expr, $($arg:tt)*) => {{ let cl: Option<&str> = $class; report(&mut cx.sum, name, cl, cj.clone(), &format!($($arg)*)); if cl.is_none() { failed = true; cx.sum.dist(&format!("unlisted_failures/{}", name)); } }}; }
+
+    if let Some(b) = &case.big {
+        let keys = big_keys(b);
+        cx.sum.dist(&format!("big_preludes/{}/{}", b.kind, b.n));
+        match guarded(|| t.insert_many(&keys)) {
+            Err(p) => { fail!(None, "bulk load of {} keys ({:?}) panicked: {}", keys.len(), b, p); }
+            Ok(Err(e)) => { fail!(None, "bulk load of {} keys ({:?}) returned an error: {}", keys.len(), b, e); }
+            Ok(Ok(())) => {
+                n_inserts_ok += keys.len();
+                for k in keys { set.insert(k); }
+                match guarded(|| t.len()) {
+                    Err(p) => { fail!(None, "len panicked after the bulk load: {}", p); }
+                    Ok(n) => check_len(cx, name, kind, &cj, 0, n, set.len(), n_inserts_ok, 0, &mut failed),
+                }
+            }
+        }
+    }
 
     for (step, (op, k)) in ops.iter().enumerate() {
         if failed { break; }
         match *op {
-            INS => {
-                let r = guarded(|| t.insert(k));
+            INS | INS_ID => {
+                // INS_ID: the second insert door where the type has one, else the first
+                let r = guarded(|| if *op == INS_ID { match t.insert_alt(k) { Some(r) => r, None => t.insert(k).map(|_| None) } } else { t.insert(k).map(|_| None) });
                 match r {
                     Err(p) => { fail!(None, "step {}: insert({:?}) panicked: {}", step, k, p); obs.push("[[2]%N]".into()); coq_ok = false; break; }
                     Ok(Err(e)) => {
@@ -289,11 +725,19 @@ fn history(cx: &mut Ctx, cell: &CellDef, ops: &[Op], force_coq: bool, allow_coq:
                         if kind == Kind::Louds && k.len() > 255 { fail!(Some("louds_key_over_255_refused"), "step {}: insert of a {}-byte key refused: {}", step, k.len(), e); }
                         else { fail!(None, "step {}: insert({:?}) returned an error: {}", step, k, e); }
                     }
-                    Ok(Ok(())) => {
+                    Ok(Ok(id)) => {
                         obs.push("[[0]%N]".into());
                         n_inserts_ok += 1;
                         n_insert_calls_dawg += 1;
                         set.insert(k.clone());
+                        if let (Some(id), true) = (id, kind != Kind::CritBit && kind != Kind::Dawg && cell.status != "S-only") {
+                            // the id the insert reports is the id a lookup of the key finds
+                            match guarded(|| t.node_id(k)) {
+                                Err(p) => { fail!(None, "step {}: lookup_node_id({:?}) panicked: {}", step, k, p); }
+                                Ok(Some((got, _))) if got != Some(id) => { fail!(None, "step {}: insert_and_get_node_id({:?}) = {} but lookup_node_id = {:?}", step, trunc1(k), id, got); }
+                                _ => {}
+                            }
+                        }
                     }
                 }
             }
@@ -328,28 +772,56 @@ fn history(cx: &mut Ctx, cell: &CellDef, ops: &[Op], force_coq: bool, allow_coq:
                     Ok(b) => { obs.push(b2n(b)); check_contains(cx, name, kind, &cj, step, k, b, set.contains(k), &mut failed); }
                 }
             }
-            LEN => {
-                match guarded(|| t.len()) {
-                    Err(p) => { fail!(None, "step {}: len panicked: {}", step, p); obs.push("[]".into()); coq_ok = false; }
-                    Ok(n) => { obs.push(format!("[[{}]%N]", n)); check_len(cx, name, kind, &cj, step, n, set.len(), n_inserts_ok, n_insert_calls_dawg, &mut failed); }
+            HAS2 => {
+                obs.push("[]".into()); unavailable.push(step);
+                match guarded(|| t.contains_alt(k)) {
+                    Err(p) => { fail!(None, "step {}: a secondary lookup of {:?} panicked: {}", step, trunc1(k), p); }
+                    Ok(v) => {
+                        let want = set.contains(k);
+                        if !v.is_empty() { cx.sum.dist("secondary_lookup_ops"); }
+                        for (door, b, via_fsa) in v {
+                            if b != want {
+                                let class = if kind == Kind::Louds && via_fsa && !b { Some("louds_fsa_view_stub") } else if kind == Kind::CritBit && !b { Some("critbit_stub") } else { None };
+                                fail!(class, "step {}: {}({:?}) = {} but membership is {}", step, door, trunc1(k), b, want);
+                            }
+                        }
+                    }
                 }
             }
-            KEYS | PRE => {
-                let r = guarded(|| if *op == KEYS { t.keys() } else { t.prefix(k) });
+            LEN => {
+                match guarded(|| (t.len(), t.len_alt())) {
+                    Err(p) => { fail!(None, "step {}: len panicked: {}", step, p); obs.push("[]".into()); coq_ok = false; }
+                    Ok((n, alt)) => {
+                        obs.push(format!("[[{}]%N]", n));
+                        check_len(cx, name, kind, &cj, step, n, set.len(), n_inserts_ok, n_insert_calls_dawg, &mut failed);
+                        for (door, m) in alt {
+                            if m != set.len() {
+                                let class = if kind == Kind::CritBit && m == n_inserts_ok { Some("critbit_stub") } else { None };
+                                fail!(class, "step {}: {} = {} but the set has {} keys", step, door, m, set.len());
+                            }
+                        }
+                    }
+                }
+            }
+            KEYS | PRE | KEYS2 | PRE2 => {
+                let whole = *op == KEYS || *op == KEYS2;
+                let second = *op == KEYS2 || *op == PRE2;
+                let r = guarded(|| match (whole, second) { (true, false) => t.keys(), (false, false) => t.prefix(k), (true, true) => t.keys_alt(None), (false, true) => t.keys_alt(Some(k)) });
                 match r {
                     Err(p) => { fail!(None, "step {}: keys/prefix panicked: {}", step, p); obs.push("[]".into()); coq_ok = false; }
                     Ok(None) => { obs.push("[]".into()); unavailable.push(step); }
                     Ok(Some(got)) => {
-                        let pre: &[u8] = if *op == KEYS { &[] } else { k };
+                        let pre: &[u8] = if whole { &[] } else { k };
                         let want: Vec<Key> = set.iter().filter(|x| x.starts_with(pre)).cloned().collect();
                         // the enumeration order is not part of the property: compare as sets, but each key once
                         let gs = sorted(got.clone());
                         // for the model comparison the Patricia/LOUDS order is deterministic; hash-map based ones are sorted
-                        obs.push(coq_keys(if kind == Kind::Sparse { &gs } else { &got }));
+                        if second { obs.push("[]".into()); unavailable.push(step); cx.sum.dist("secondary_enumeration_ops"); }
+                        else { obs.push(coq_keys(if kind == Kind::Sparse { &gs } else { &got })); }
                         if gs != want {
                             let class = if kind == Kind::CritBit && got.is_empty() { Some("critbit_stub") } else { None };
-                            let what = if *op == KEYS { "keys()".to_string() } else { format!("keys_with_prefix({:?})", k) };
-                            fail!(class, "step {}: {} = {:?} but the set restricted to the prefix is {:?}", step, what, trunc(&gs), trunc(&want));
+                            let what = format!("{}{}", if whole { "keys()".to_string() } else { format!("keys_with_prefix({:?})", trunc1(k)) }, if second { " through the second door (PrefixIterable / parallel_prefix_search)" } else { "" });
+                            fail!(class, "step {}: {} = {:?} ({} keys) but the set restricted to the prefix is {:?} ({} keys)", step, what, trunc(&gs), gs.len(), trunc(&want), want.len());
                         }
                     }
                 }
@@ -401,17 +873,94 @@ fn history(cx: &mut Ctx, cell: &CellDef, ops: &[Op], force_coq: bool, allow_coq:
                     Ok(done) => { obs.push("[]".into()); unavailable.push(step); if done { cx.sum.dist("shrink_to_fit_ops"); } }
                 }
             }
+            FSAWALK => {
+                obs.push("[]".into()); unavailable.push(step);
+                let max_depth = set.iter().map(|x| x.len()).max().unwrap_or(0).max(pool.iter().map(|x| x.len()).max().unwrap_or(0)) + 1;
+                match guarded(|| t.fsa().map(|a| fsa_language(a, max_depth, 20000))) {
+                    Err(p) => { fail!(None, "step {}: the walk over root()/transitions()/is_final() panicked: {}", step, p); }
+                    Ok(None) | Ok(Some(Ok(None))) => {}
+                    Ok(Some(Err(e))) => { fail!(None, "step {}: automaton view: {}", step, e); }
+                    Ok(Some(Ok(Some(got)))) => {
+                        cx.sum.dist("fsa_walk_ops");
+                        let gs = sorted(got);
+                        let want: Vec<Key> = set.iter().cloned().collect();
+                        if gs != want {
+                            let class = if kind == Kind::Louds && gs.is_empty() { Some("louds_fsa_view_stub") } else if kind == Kind::CritBit && gs.is_empty() { Some("critbit_stub") } else { None };
+                            fail!(class, "step {}: the language of the automaton view (root/transitions/is_final) is {:?} ({} keys) but the set is {:?} ({} keys)", step, trunc(&gs), gs.len(), trunc(&want), want.len());
+                        }
+                    }
+                }
+            }
+            NODEID => {
+                obs.push("[]".into()); unavailable.push(step);
+                match guarded(|| t.node_id(k)) {
+                    Err(p) => { fail!(None, "step {}: lookup_node_id/restore_string({:?}) panicked: {}", step, trunc1(k), p); }
+                    Ok(None) => {}
+                    Ok(Some((id, restored))) => {
+                        cx.sum.dist("node_id_ops");
+                        let want = set.contains(k);
+                        if id.is_some() != want {
+                            let class = if kind == Kind::CritBit && id.is_none() { Some("critbit_stub") } else { None };
+                            fail!(class, "step {}: lookup_node_id({:?}) = {:?} but membership is {}", step, trunc1(k), id, want);
+                        } else if let Some(i) = id {
+                            // an id stands for its key: the two storages that implement restore_string must give the key back, the others may decline
+                            let must = kind == Kind::Patricia || kind == Kind::Louds;
+                            if (must && restored.as_deref() != Some(&k[..])) || (!must && restored.is_some() && restored.as_deref() != Some(&k[..])) {
+                                fail!(None, "step {}: restore_string(lookup_node_id({:?}) = {}) = {:?}", step, trunc1(k), i, restored.map(|x| trunc1(&x)));
+                            }
+                        }
+                    }
+                }
+            }
+            DAWALK => {
+                obs.push("[]".into()); unavailable.push(step);
+                if kind == Kind::DoubleArray {
+                    match guarded(|| t.da_walk(k)) {
+                        Err(p) => { fail!(None, "step {}: a double-array accessor panicked on the walk of {:?}: {}", step, trunc1(k), p); }
+                        Ok(None) => {}
+                        Ok(Some(b)) => {
+                            cx.sum.dist("da_accessor_walk_ops");
+                            if b != set.contains(k) { fail!(None, "step {}: the walk of {:?} over get_base/get_parent/get_check/is_free/is_terminal ends {} but membership is {}", step, trunc1(k), if b { "in a terminal state" } else { "nowhere" }, set.contains(k)); }
+                        }
+                    }
+                }
+            }
+            REBUILD => {
+                obs.push("[]".into()); unavailable.push(step);
+                let keys: Vec<Key> = set.iter().cloned().collect();
+                let how = k.first().copied().unwrap_or(0) as u64;
+                match guarded(|| t.rebuild(&keys, how)) {
+                    Err(p) => { fail!(None, "step {}: bulk build (door {}) of {} keys panicked: {}", step, how, keys.len(), p); coq_ok = false; break; }
+                    Ok(None) => {}
+                    Ok(Some(Err(e))) => { fail!(None, "step {}: bulk build (door {}) of {} keys failed: {}", step, how, keys.len(), e); coq_ok = false; break; }
+                    Ok(Some(Ok(()))) => { cx.sum.dist("bulk_rebuild_ops"); n_insert_calls_dawg = set.len(); }
+                }
+            }
+            CLEAR => {
+                obs.push("[]".into()); unavailable.push(step);
+                match guarded(|| t.clear()) {
+                    Err(p) => { fail!(None, "step {}: clear panicked: {}", step, p); coq_ok = false; break; }
+                    Ok(false) => {}
+                    Ok(true) => { set.clear(); n_inserts_ok = 0; n_insert_calls_dawg = 0; cx.sum.dist("clear_ops"); if cell.status != "S-only" { coq_ok = false; } }
+                }
+            }
             _ => { obs.push("[]".into()); }
         }
-        // after every mutation: len and membership of every key of the history
-        if (*op <= REM || *op == CLONE || *op == SHRINK) && !failed {
-            match guarded(|| (t.len(), pool.iter().map(|q| t.contains(q)).collect::<Vec<bool>>())) {
+        // after every mutation: len, emptiness and membership of every key of the history
+        if matches!(*op, INS | REM | CLONE | SHRINK | INS_ID | REBUILD | CLEAR) && !failed {
+            match guarded(|| (t.len(), t.is_empty_all(), pool.iter().map(|q| t.contains(q)).collect::<Vec<bool>>())) {
                 Err(p) => { fail!(None, "step {}: len/contains panicked after the mutation: {}", step, p); coq_ok = false; }
-                Ok((n, bs)) => {
+                Ok((n, es, bs)) => {
                     check_len(cx, name, kind, &cj, step, n, set.len(), n_inserts_ok, n_insert_calls_dawg, &mut failed);
+                    for (door, e) in es {
+                        if e != set.is_empty() && !failed {
+                            let class = if kind == Kind::CritBit && e == (n_inserts_ok == 0) { Some("critbit_stub") } else { None };
+                            fail!(class, "step {}: {}() = {} but the set has {} keys", step, door, e, set.len());
+                        }
+                    }
                     for (q, b) in pool.iter().zip(bs) {
-                        check_contains(cx, name, kind, &cj, step, q, b, set.contains(q), &mut failed);
                         if failed { break; }
+                        check_contains(cx, name, kind, &cj, step, q, b, set.contains(q), &mut failed);
                     }
                 }
             }
@@ -430,11 +979,22 @@ fn history(cx: &mut Ctx, cell: &CellDef, ops: &[Op], force_coq: bool, allow_coq:
             if !short_enough { continue; }
             if !(force_coq || (allow_coq && cx.used[slot] < cx.budget[slot])) { continue; }
             cx.used[slot] += 1;
-            let ops_coq: Vec<String> = ops.iter().enumerate().map(|(i, (o, k))| format!("({}, {})", if unavailable.contains(&i) { 9 } else { *o }, coq_key(k))).collect();
+            // the secondary insert door is an insert for the model; what a type does not offer and every other secondary entry point is a no-op there
+            let ops_coq: Vec<String> = ops.iter().enumerate().map(|(i, (o, k))| format!("({}, {})", if unavailable.contains(&i) { 9 } else if *o == INS_ID { INS } else { *o }, coq_key(k))).collect();
             let term = format!("({}, [{}], [{}])", slot, ops_coq.join("; "), obs.join("; "));
             cx.shards.push(term, cj.clone());
         }
     }
+}
+
+/// `Summary::fail` keeps at most `max_failures` records, and the records of the listed finding classes (three per class and cell)
+/// fill that room early in a run: a failure outside every class must never be dropped for lack of room (the verdict of `check`
+/// reads the records only), so room is made for it - for the first 60 of them.
+fn report(sum: &mut Summary, cell: &str, class: Option<&str>, case: Value, detail: &str) {
+    if class.is_none() && sum.failures.iter().filter(|f| f["class"].is_null()).count() < 60 {
+        sum.max_failures = sum.max_failures.max(sum.failures.len() + 1);
+    }
+    sum.fail(cell, class, case, detail);
 }
 
 fn trunc(v: &[Key]) -> Vec<Key> { v.iter().take(6).map(|k| k.iter().take(12).cloned().collect()).collect() }
@@ -442,14 +1002,14 @@ fn trunc(v: &[Key]) -> Vec<Key> { v.iter().take(6).map(|k| k.iter().take(12).clo
 fn check_contains(cx: &mut Ctx, name: &str, kind: Kind, cj: &Value, step: usize, k: &[u8], got: bool, want: bool, failed: &mut bool) {
     if got != want {
         let class = if kind == Kind::CritBit && !got { Some("critbit_stub") } else { None };
-        cx.sum.fail(name, class, cj.clone(), &format!("step {}: contains({:?}) = {} but the key was {}", step, &k[..k.len().min(16)], got, if want { "inserted and not removed" } else { "never inserted or removed" }));
+        report(&mut cx.sum, name, class, cj.clone(), &format!("step {}: contains({:?}) = {} but the key was {}", step, &k[..k.len().min(16)], got, if want { "inserted and not removed" } else { "never inserted or removed" }));
         if class.is_none() { *failed = true; cx.sum.dist(&format!("unlisted_failures/{}", name)); }
     }
 }
 fn check_len(cx: &mut Ctx, name: &str, kind: Kind, cj: &Value, step: usize, got: usize, want: usize, n_ins: usize, _n_calls: usize, failed: &mut bool) {
     if got != want {
         let class = if kind == Kind::CritBit && got == n_ins { Some("critbit_stub") } else { None };
-        cx.sum.fail(name, class, cj.clone(), &format!("step {}: len = {} but the set has {} keys", step, got, want));
+        report(&mut cx.sum, name, class, cj.clone(), &format!("step {}: len = {} but the set has {} keys", step, got, want));
         if class.is_none() { *failed = true; cx.sum.dist(&format!("unlisted_failures/{}", name)); }
     }
 }
@@ -510,33 +1070,136 @@ fn gen_history(r: &mut Rng, long: bool) -> Vec<Op> {
     let mut present: Vec<Key> = vec![];
     for _ in 0..n {
         let k = r.pick(&pool).clone();
-        match r.below(20) {
-            0..=8 => { if !present.contains(&k) { present.push(k.clone()); } ops.push((INS, k)); }
+        match r.below(25) {
+            0..=8 => { if !present.contains(&k) { present.push(k.clone()); } ops.push((if r.chance(1, 4) { INS_ID } else { INS }, k)); }
             9..=12 => {
                 // mostly remove something present (deletion followed by re-insertion is where the bugs live)
                 let k = if !present.is_empty() && r.chance(4, 5) { r.pick(&present).clone() } else { k };
                 present.retain(|x| x != &k);
                 ops.push((REM, k));
             }
-            13..=14 => ops.push((HAS, k)),
+            13..=14 => ops.push((if r.chance(1, 3) { HAS2 } else { HAS }, k)),
             15 => ops.push((match r.below(3) { 0 => CLONE, 1 => SHRINK, _ => LEN }, vec![])),
-            16 => ops.push((if r.chance(1, 2) { KEYS } else { PRE }, if k.len() > 3 { k[..r.below(4) as usize].to_vec() } else { k })),
+            16 => { let second = r.chance(1, 3); ops.push((match (r.chance(1, 2), second) { (true, false) => KEYS, (false, false) => PRE, (true, true) => KEYS2, _ => PRE2 }, if k.len() > 3 { k[..r.below(4) as usize].to_vec() } else { k })) }
             17 => ops.push((ACC, k)),
-            _ => { let mut q = k; if r.chance(1, 2) { q.push(*r.pick(&[0u8, 0xFF, b'a'])); if r.chance(1, 2) { q.push(r.next() as u8); } } ops.push((LP, q)); }
+            18..=19 => { let mut q = k; if r.chance(1, 2) { q.push(*r.pick(&[0u8, 0xFF, b'a'])); if r.chance(1, 2) { q.push(r.next() as u8); } } ops.push((LP, q)); }
+            // the secondary entry points, in the middle of the history: what they leave behind is read by whatever comes next
+            20 => ops.push((REBUILD, vec![r.below(24) as u8])),
+            21 => ops.push((if r.chance(1, 6) { CLEAR } else { FSAWALK }, vec![])),
+            22 => { let k = if !present.is_empty() && r.chance(2, 3) { r.pick(&present).clone() } else { k }; ops.push((NODEID, k)); }
+            23 => { let k = if !present.is_empty() && r.chance(2, 3) { r.pick(&present).clone() } else { k }; ops.push((DAWALK, k)); }
+            _ => ops.push((SHRINK, vec![])),
         }
+        if ops.last().map(|o| o.0) == Some(CLEAR) { present.clear(); }
     }
     // final dump
     ops.push((LEN, vec![]));
     ops.push((KEYS, vec![]));
+    if r.chance(1, 2) { ops.push((KEYS2, vec![])); }
+    ops.push((FSAWALK, vec![]));
     for k in &pool {
         if k.len() <= 80 || r.chance(1, 3) {
             ops.push((HAS, k.clone()));
             if r.chance(1, 2) { ops.push((ACC, k.clone())); }
             if r.chance(1, 2) { let mut q = k.clone(); q.push(*r.pick(&[0u8, 0xFF, b'b'])); ops.push((LP, q)); }
             if r.chance(1, 4) && k.len() <= 80 { ops.push((PRE, k.clone())); }
+            if r.chance(1, 6) { ops.push((HAS2, k.clone())); }
+            if r.chance(1, 6) { ops.push((NODEID, k.clone())); }
+            if r.chance(1, 6) { ops.push((DAWALK, k.clone())); }
+            if r.chance(1, 12) && k.len() <= 80 { ops.push((PRE2, k.clone())); }
         }
     }
     ops
+}
+
+/// every observer of the small universe, through both doors
+fn dump_small(ops: &mut Vec<Op>, uni: &[Key]) {
+    ops.push((LEN, vec![]));
+    ops.push((KEYS, vec![]));
+    ops.push((KEYS2, vec![]));
+    ops.push((PRE, b"a".to_vec()));
+    ops.push((PRE2, b"a".to_vec()));
+    ops.push((FSAWALK, vec![]));
+    for k in uni { ops.push((ACC, k.clone())); ops.push((HAS2, k.clone())); ops.push((NODEID, k.clone())); ops.push((DAWALK, k.clone())); }
+    ops.push((LP, vec![b'a', b'b', b'c']));
+    ops.push((LP, vec![b'a', 0, 0]));
+}
+
+/// Deterministic family: mutation, housekeeping / bulk step, mutation through the second door, over the small universe -
+/// every (first mutation, step, second mutation) triple, each followed by a dump through every observer.
+fn staged() -> Vec<Vec<Op>> {
+    let uni: Vec<Key> = vec![vec![], b"a".to_vec(), b"ab".to_vec(), b"b".to_vec(), vec![b'a', 0]];
+    let muts: Vec<Op> = uni.iter().map(|k| (INS, k.clone())).chain(uni.iter().map(|k| (REM, k.clone()))).collect();
+    let steps: Vec<Op> = vec![(CLONE, vec![]), (SHRINK, vec![]), (REBUILD, vec![0]), (REBUILD, vec![1]), (REBUILD, vec![2]), (REBUILD, vec![7]), (CLEAR, vec![]), (FSAWALK, vec![])];
+    let mut out = vec![];
+    for (i, m1) in muts.iter().enumerate() {
+        for (j, st) in steps.iter().enumerate() {
+            for (l, m2) in muts.iter().enumerate() {
+                // a third of the triples in full would be 800 histories on every cell: every triple is taken once in three rotations of the seed-free index
+                if (i + j + l) % 3 != 0 { continue; }
+                let mut ops: Vec<Op> = vec![(INS, b"ab".to_vec()), (INS_ID, b"a".to_vec()), m1.clone(), st.clone()];
+                ops.push(if m2.0 == INS { (INS_ID, m2.1.clone()) } else { m2.clone() });
+                dump_small(&mut ops, &uni);
+                out.push(ops);
+            }
+        }
+    }
+    out
+}
+
+/// What is asked of a trie that holds a big key set: observers on a sample of its keys and of near misses, then mutations,
+/// housekeeping and a bulk rebuild, then the observers again.  Keys are written as references into the key set.
+fn big_ops(b: &BigSpec, keys: &[Key], r: &mut Rng, heavy: bool) -> (Vec<Op>, Vec<Value>) {
+    let mut ops: Vec<Op> = vec![];
+    let mut js: Vec<Value> = vec![];
+    let nsample = if heavy { 40 } else { 120 };
+    let mut push = |ops: &mut Vec<Op>, js: &mut Vec<Value>, code: u64, i: usize, cut: Option<usize>, ext: &[u8]| {
+        let mut k = keys[i].clone();
+        if let Some(c) = cut { k.truncate(c); }
+        k.extend_from_slice(ext);
+        ops.push((code, k));
+        let mut o = json!({"k": i});
+        if let Some(c) = cut { o["cut"] = json!(c); }
+        if !ext.is_empty() { o["push"] = json!(ext); }
+        js.push(json!([code, o]));
+    };
+    let lit = |ops: &mut Vec<Op>, js: &mut Vec<Value>, code: u64, k: Key| { js.push(json!([code, k])); ops.push((code, k)); };
+    let _ = b;
+    for round in 0..2 {
+        lit(&mut ops, &mut js, LEN, vec![]);
+        lit(&mut ops, &mut js, KEYS, vec![]);
+        if round == 0 { lit(&mut ops, &mut js, KEYS2, vec![]); }
+        for s in 0..nsample {
+            let i = r.below(keys.len() as u64) as usize;
+            let len = keys[i].len();
+            push(&mut ops, &mut js, if s % 5 == 4 { HAS2 } else { HAS }, i, None, &[]);
+            match s % 8 {
+                0 => push(&mut ops, &mut js, HAS, i, Some(len - 1), &[]),              // a proper prefix (a member or not)
+                1 => push(&mut ops, &mut js, HAS, i, None, &[*r.pick(&[0u8, 0xFF, b'a'])]), // an extension
+                2 => push(&mut ops, &mut js, ACC, i, None, &[]),
+                3 => push(&mut ops, &mut js, LP, i, None, &[*r.pick(&[0u8, 0xFF, b'q']), 7]),
+                4 => push(&mut ops, &mut js, PRE, i, Some(if len > 3 { len - r.below(3) as usize } else { r.below(len as u64 + 1) as usize }), &[]),
+                5 => push(&mut ops, &mut js, NODEID, i, None, &[]),
+                6 => push(&mut ops, &mut js, DAWALK, i, None, &[]),
+                _ => push(&mut ops, &mut js, ACC, i, Some(len - 1), &[r.next() as u8]),
+            }
+        }
+        if round == 0 {
+            // mutations in the big trie: remove, re-insert through both doors, new keys next to old ones, then housekeeping and a bulk rebuild
+            lit(&mut ops, &mut js, SHRINK, vec![]);
+            if !heavy { lit(&mut ops, &mut js, FSAWALK, vec![]); }
+            for s in 0..(if heavy { 12 } else { 30 }) {
+                let i = r.below(keys.len() as u64) as usize;
+                push(&mut ops, &mut js, REM, i, None, &[]);
+                if s % 3 == 0 { push(&mut ops, &mut js, if s % 2 == 0 { INS } else { INS_ID }, i, None, &[]); }
+                if s % 4 == 1 { push(&mut ops, &mut js, INS_ID, i, None, &[0xFF, 0x00]); }
+            }
+            lit(&mut ops, &mut js, SHRINK, vec![]);
+            // Clone and the bulk builders go through ZiporaTrie::insert (statistics over all nodes per call): small key sets only
+            if !heavy { lit(&mut ops, &mut js, CLONE, vec![]); lit(&mut ops, &mut js, REBUILD, vec![r.below(24) as u8]); }
+        }
+    }
+    (ops, js)
 }
 
 /// all histories of `len` mutations over a tiny key universe, each followed by a full dump
@@ -568,21 +1231,90 @@ fn coq_turn(cell: &CellDef, i: usize) -> bool {
     !same.is_empty() && same[i % same.len()].name == cell.name
 }
 
-fn parse_ops(c: &Value) -> Vec<Op> {
-    c["ops"].as_array().map(|a| a.iter().map(|o| {
+fn parse_case(c: &Value) -> Case {
+    let big = c.get("big").filter(|b| b.is_object()).map(|b| BigSpec { kind: b["kind"].as_str().unwrap_or("dense3").to_string(), n: b["n"].as_u64().unwrap_or(0) as usize, seed: b["seed"].as_u64().unwrap_or(0) });
+    let keys: Vec<Key> = big.as_ref().map(big_keys).unwrap_or_default();
+    let bytes = |v: &Value| -> Key { v.as_array().map(|b| b.iter().map(|x| x.as_u64().unwrap_or(0) as u8).collect()).unwrap_or_default() };
+    let arr: Vec<Value> = c["ops"].as_array().cloned().unwrap_or_default();
+    let ops: Vec<Op> = arr.iter().map(|o| {
         let code = o[0].as_u64().unwrap_or(2);
-        let k: Key = o[1].as_array().map(|b| b.iter().map(|x| x.as_u64().unwrap_or(0) as u8).collect()).unwrap_or_default();
+        // a key is spelled out, or is a reference into the big key set: {"k": index, "cut": length, "push": [bytes]}
+        let k: Key = if o[1].is_object() {
+            let mut k = keys.get(o[1]["k"].as_u64().unwrap_or(0) as usize).cloned().unwrap_or_default();
+            if let Some(cut) = o[1]["cut"].as_u64() { k.truncate(cut as usize); }
+            k.extend(bytes(&o[1]["push"]));
+            k
+        } else { bytes(&o[1]) };
         (code, k)
-    }).collect()).unwrap_or_default()
+    }).collect();
+    Case { cfg: c["cfg"].as_u64().unwrap_or(0), big, ops, ops_json: Some(arr) }
 }
 
-fn run_case(cx: &mut Ctx, c: &Value, force: bool) {
+fn run_case(cx: &mut Ctx, c: &Value, force: bool, out: &str) {
     let name = c["cell"].as_str().unwrap_or("");
-    let ops = parse_ops(c);
+    let case = parse_case(c);
     if name == "*" {
-        for cell in CELLS { history(cx, cell, &ops, force, true); }
+        for cell in CELLS { if case.big.is_some() { isolated(cx, cell, &case, out); } else { history(cx, cell, &case, force, true); } }
     } else if let Some(cell) = CELLS.iter().find(|d| d.name == name) {
-        history(cx, cell, &ops, force, true);
+        if case.big.is_some() { isolated(cx, cell, &case, out); } else { history(cx, cell, &case, force, true); }
+    }
+}
+
+/// A case with a big key set runs in a child process (this binary, `--replay` of the case, ZV_C05_CHILD set): a structure that
+/// has become cyclic or has lost its bounds overflows the stack or aborts in the recursive enumeration, and a dead harness has no
+/// failing input to show.  The child's summary is merged; a child that dies or hangs is a failure of the case.
+fn isolated(cx: &mut Ctx, cell: &CellDef, case: &Case, out: &str) {
+    if std::env::var("ZV_C05_CHILD").is_ok() { history(cx, cell, case, false, false); return; }
+    let name = cell.name;
+    let cj = case.json(name);
+    let dir = format!("{}/big_child", out);
+    let _ = std::fs::remove_dir_all(&dir);
+    let _ = std::fs::create_dir_all(&dir);
+    let file = format!("{}/case.json", dir);
+    let _ = std::fs::write(&file, serde_json::to_string(&json!({"case": cj})).unwrap_or_default());
+    let exe = match std::env::current_exe() { Ok(e) => e, Err(_) => { history(cx, cell, case, false, false); return; } };
+    let child = std::process::Command::new(exe).args(["C05", "--seed", "0", "--tier", "quick", "--out", &dir, "--replay", &file])
+        .env("ZV_C05_CHILD", "1").stdin(std::process::Stdio::null()).stdout(std::process::Stdio::null()).stderr(std::process::Stdio::null()).spawn();
+    let mut child = match child { Ok(c) => c, Err(_) => { history(cx, cell, case, false, false); return; } };
+    let t0 = std::time::Instant::now();
+    let status = loop {
+        match child.try_wait() {
+            Ok(Some(st)) => break Some(st),
+            Ok(None) => { if t0.elapsed().as_secs() > 600 { let _ = child.kill(); let _ = child.wait(); break None; } std::thread::sleep(std::time::Duration::from_millis(5)); }
+            Err(_) => break None,
+        }
+    };
+    let summary: Option<Value> = std::fs::read_to_string(format!("{}/summary.json", dir)).ok().and_then(|s| serde_json::from_str(&s).ok());
+    match (status.map(|s| s.success()), summary) {
+        (Some(true), Some(v)) => {
+            cx.sum.eval(name, &format!("{} {} {:?} {:?}", name, case.cfg, case.big, case.ops), true);
+            cx.sum.cell_status(name, cell.status);
+            if let Some(d) = v["distribution"].as_object() { for (k, n) in d { if k != "coq_cases" { *cx.sum.distribution.entry(k.clone()).or_insert(0) += n.as_u64().unwrap_or(0); } } }
+            if let Some(d) = v["known_hits"].as_object() { for (k, n) in d { *cx.sum.known_hits.entry(k.clone()).or_insert(0) += n.as_u64().unwrap_or(0); } }
+            for f in v["failures"].as_array().cloned().unwrap_or_default() {
+                if f["class"].is_null() { report(&mut cx.sum, name, None, f["case"].clone(), f["detail"].as_str().unwrap_or("")); }
+                else if cx.sum.failures.len() < cx.sum.max_failures && cx.sum.failures.iter().filter(|g| g["class"] == f["class"] && g["cell"] == f["cell"]).count() < 3 { cx.sum.failures.push(f); }
+            }
+        }
+        (st, _) => {
+            cx.sum.eval(name, &format!("{} {} {:?} {:?}", name, case.cfg, case.big, case.ops), true);
+            cx.sum.cell_status(name, cell.status);
+            let how = match (st, status) { (None, _) => "did not finish within 600 s and was killed".to_string(), (_, Some(s)) => format!("died ({})", s), _ => "died".to_string() };
+            report(&mut cx.sum, name, None, cj, &format!("the process that ran this case {} (stack overflow / abort / endless loop inside the trie code)", how));
+            cx.sum.dist(&format!("unlisted_failures/{}", name));
+        }
+    }
+}
+
+/// the cells a big key set is loaded into (debug build: the sparse storage takes the maximum over all node ids on every insert,
+/// the LOUDS storage scans all records, the DAWG minimisation is quadratic, the parallel front end clones the trie per replica)
+fn big_cells(kind: &str, n: usize) -> Vec<&'static str> {
+    match (kind, n > 1000) {
+        // (the critical-bit stub stores nothing; one parallel front end is enough)
+        ("dense3", false) => CELLS.iter().filter(|c| c.kind != Kind::CritBit && c.name != "ParallelLoudsTrie").map(|c| c.name).collect(),
+        // the wrapper types only have the insert door that recomputes the statistics: no 70000-key sets for them
+        ("dense3", true) => vec!["ZiporaTrie/default", "ZiporaTrie/varied(Patricia)", "ZiporaTrie/concurrent_high_performance", "ZiporaTrie/varied(DoubleArray)", "SimpleDawg", "NestedTrieDawg(Trie::insert)"],
+        _ => vec!["ZiporaTrie/cache_optimized", "ZiporaTrie/sparse_optimized", "CompressedSparseTrie(varied)", "ZiporaTrie/space_optimized", "NestedLoudsTrie(varied)", "ZiporaTrie/custom(DoubleArray,CacheOptimized)", "DoubleArrayTrie(wrapper)", "SimpleDawg", "NestedTrieDawg(Trie::insert)"],
     }
 }
 
@@ -593,17 +1325,24 @@ pub fn run(args: &Args) {
         if devnull >= 0 { libc::dup2(devnull, 2); }
     }
     let q = !args.thorough;
+    let t0 = std::time::Instant::now();
+    let trace = std::env::var("ZV_C05_TRACE").is_ok();
+    // debugging aid: ZV_C05_ONLY=enumerated|staged|big|generated runs one phase (never set by ./check)
+    let only = std::env::var("ZV_C05_ONLY").ok();
+    let phase = |p: &str| only.as_deref().map(|o| o.split(',').any(|x| x == p)).unwrap_or(true);
+    let tr = |what: &str| { if trace { println!("[c05 {:8.2}s] {}", t0.elapsed().as_secs_f64(), what); } };
     let mut cx = Ctx {
-        sum: Summary::new("C05", "histories of insert/remove/contains/len/keys/keys_with_prefix/accepts+lookup/longest_prefix over a key pool built to share structure (the empty key, a stem and all its prefixes, siblings differing in the last byte, 0x00/0xFF extensions, random tails, 33..70-byte stems beyond the 32/64-byte path limits, 254..300-byte keys around the LOUDS length limit); after every mutation len and contains of every key of the history are compared with a BTreeSet, every history ends with a full dump; all histories of 1..3 mutations over {eps,a,ab,b,a\\0} enumerated on every cell; non-trivial = at least two mutations"),
+        sum: Summary::new("C05", "histories of insert/remove/contains/len/keys/keys_with_prefix/accepts+lookup/longest_prefix and of the secondary entry points (insert_and_get_node_id / Trie::insert / insert_with_token / bulk_insert, Trie::contains / lookup / *_with_token / parallel_contains / parallel_process, PrefixIterable / parallel_prefix_search, root+transitions+is_final walk, lookup_node_id+restore_string, double-array accessors, clone, shrink_to_fit / refresh_replicas, bulk rebuild through every builder, clear) over a key pool built to share structure (the empty key, a stem and all its prefixes, siblings differing in the last byte, 0x00/0xFF extensions, random tails, 33..70-byte stems beyond the 32/64-byte path limits, 254..300-byte keys around the LOUDS length limit); after every mutation len, is_empty and contains of every key of the history are compared with a BTreeSet, every history ends with a full dump; all histories of 1..3 mutations over {eps,a,ab,b,a\\0} enumerated on every cell, the staged family (mutation, housekeeping or bulk step, mutation through the second door) on every cell, big key sets (dense3: up to 70000 keys of 1..3 bytes; long: 450 keys of 200..255 bytes, more than 2^16 nodes / slots / record bytes) loaded through the bulk door; configurations of the varied cells drawn from boundary values of every field; non-trivial = at least two mutations"),
         shards: CoqShards::new(HEADER, 150),
         budget: if q { [600, 150, 250, 40, 300, 160] } else { [4000, 1500, 1500, 200, 2500, 1500] },
         used: [0; 6],
     };
+    if trace { cx.sum.max_failures = 2000; }
     let mut rng = Rng::new(args.seed);
     if let Some(f) = &args.replay {
         let v: Value = serde_json::from_str(&std::fs::read_to_string(f).expect("replay file")).expect("json");
         let c = if v.get("case").is_some() { v["case"].clone() } else { v };
-        run_case(&mut cx, &c, true);
+        run_case(&mut cx, &c, true, &args.out);
         let sh = cx.shards.write(&args.out);
         cx.sum.write(&args.out, sh);
         return;
@@ -614,38 +1353,87 @@ pub fn run(args: &Args) {
         for p in files {
             if let Ok(v) = serde_json::from_str::<Value>(&std::fs::read_to_string(&p).unwrap_or_default()) {
                 let c = if v.get("case").is_some() { v["case"].clone() } else { v };
-                run_case(&mut cx, &c, true);
+                run_case(&mut cx, &c, true, &args.out);
                 cx.sum.dist("corpus_cases");
             }
         }
     }
+    tr("corpus done");
     // enumerated small universe
     for len in 1..=(if q { 2 } else { 3 }) {
+        if !phase("enumerated") { break; }
         for ops in enumerated(len) {
+            let case = Case::plain(ops);
             for cell in CELLS {
-                if cell.name == "ParallelLoudsTrie" && len > 1 { continue; }
+                if cell.name.starts_with("ParallelLoudsTrie") && len > 1 { continue; }
                 // the cells of one kind run the same code: replay each enumerated history in Coq once per kind
-                history(&mut cx, cell, &ops, false, coq_turn(cell, 0));
+                history(&mut cx, cell, &case, false, coq_turn(cell, 0));
             }
             cx.sum.dist("enumerated_histories");
         }
     }
+    tr("enumerated done");
+    // staged family: mutation, housekeeping / bulk step, mutation through the second door (deterministic; the configuration number moves with the index)
+    for (i, ops) in staged().into_iter().enumerate() {
+        if !phase("staged") { break; }
+        if q && i % 2 == 1 { continue; }
+        let mut case = Case::plain(ops);
+        case.cfg = 1 + i as u64;
+        for cell in CELLS {
+            if cell.name.starts_with("ParallelLoudsTrie") && i % 8 != 0 { continue; }
+            // the Coq budgets belong to the generated histories: one staged history in eight is replayed
+            history(&mut cx, cell, &case, false, i % 8 == 0 && coq_turn(cell, i / 8));
+        }
+        cx.sum.dist("staged_histories");
+    }
+    tr("staged done");
+    // big key sets, described by (kind, n, seed)
+    let bigs: Vec<(&str, usize)> = if q { vec![("dense3", 300), ("dense3", 70000), ("long", 450)] } else { vec![("dense3", 255), ("dense3", 256), ("dense3", 300), ("dense3", 65535), ("dense3", 65536), ("dense3", 70643), ("long", 450), ("long", 800)] };
+    for (bi, (kind, n)) in bigs.into_iter().enumerate() {
+        if !phase("big") { break; }
+        let b = BigSpec { kind: kind.to_string(), n, seed: args.seed.wrapping_mul(31).wrapping_add(bi as u64) };
+        let keys = big_keys(&b);
+        let (ops, js) = big_ops(&b, &keys, &mut rng, n > 1000 || kind == "long");
+        for (ci, name) in big_cells(kind, n).into_iter().enumerate() {
+            // quick tier: two of the cells take the 70000-key set
+            if q && n > 1000 && kind == "dense3" && ![0usize, 3].contains(&ci) { continue; }
+            if let Some(cell) = CELLS.iter().find(|d| d.name == name) {
+                let mut case = Case { cfg: args.seed.wrapping_add(bi as u64), big: Some(b.clone()), ops: ops.clone(), ops_json: Some(js.clone()) };
+                if name.starts_with("ParallelLoudsTrie") {
+                    // every insert rebuilds all replicas: the bulk load and the observers, two inserts through each door
+                    let keep: Vec<usize> = { let mut seen = [0usize; 2]; (0..case.ops.len()).filter(|&i| { let o = case.ops[i].0; if o == INS || o == INS_ID { let j = (o == INS_ID) as usize; seen[j] += 1; seen[j] <= 2 } else { o != REM && o != REBUILD } }).collect() };
+                    case.ops = keep.iter().map(|&i| case.ops[i].clone()).collect();
+                    case.ops_json = Some(keep.iter().map(|&i| js[i].clone()).collect());
+                }
+                isolated(&mut cx, cell, &case, &args.out);
+                tr(&format!("big {} {} on {}", kind, n, name));
+            }
+        }
+        cx.sum.dist_max("max_big_key_set", keys.len() as u64);
+        // nodes of the uncompressed trie of the key set = its distinct non-empty prefixes (+ the root)
+        let mut pre: std::collections::HashSet<&[u8]> = std::collections::HashSet::new();
+        for k in &keys { for c in 1..=k.len() { if !pre.insert(&k[..c]) && c < k.len() { continue; } } }
+        cx.sum.dist_max(&format!("trie_nodes_of_big_key_set/{}", kind), pre.len() as u64 + 1);
+    }
     // generated
     let rounds = if q { 400 } else { 5000 };
     for i in 0..rounds {
+        if !phase("generated") { break; }
         let long = i % 4 == 3;
         let ops = gen_history(&mut rng, long);
         if i < 3 { cx.sum.sample(json!({"history": ops.iter().take(10).map(|(o, k)| json!([o, k.iter().take(10).collect::<Vec<_>>()])).collect::<Vec<_>>()})); }
         cx.sum.dist_max("max_key_len", ops.iter().map(|(_, k)| k.len()).max().unwrap_or(0) as u64);
         cx.sum.dist_max("max_history_len", ops.len() as u64);
         if long { cx.sum.dist("histories_with_long_keys"); } else { cx.sum.dist("histories_short_keys"); }
+        let case = Case { cfg: rng.next() | 1, big: None, ops, ops_json: None };
         for cell in CELLS {
-            if cell.name == "ParallelLoudsTrie" && (i % 8 != 0 || long) { continue; } // replicas are rebuilt on every insert: slow
+            if cell.name.starts_with("ParallelLoudsTrie") && (i % 8 != 0 || long) { continue; } // replicas are rebuilt on every insert: slow
             if cell.kind == Kind::Dawg && long { continue; }
             // same history on every cell; fresh history for the Patricia cells more often
-            history(&mut cx, cell, &ops, false, coq_turn(cell, i as usize));
+            history(&mut cx, cell, &case, false, coq_turn(cell, i as usize));
         }
     }
+    tr("generated done");
     cx.sum.dist_max("coq_cases", cx.shards.len() as u64);
     let sh = cx.shards.write(&args.out);
     cx.sum.write(&args.out, sh);
